@@ -97,6 +97,8 @@ def task(desc):
         if desc["no_base"]:
             args += ["--no-base-argmaps"]
         r.clear_traces()
+        if desc.get("foreign"):
+            r.foreign_cwd()   # monorail is invoked as `-f <abs config>` from another directory
         res = r.mr(*args, env=r.trace_env())
         viol = []
         doc = res.json()
@@ -167,6 +169,12 @@ def scenarios(tier):
                         files = [{"base": "args", "m1": "args", "m2": "args" if i % 2 == 0 else "nocmd"} for i in range(n)]
                         out.append({"targets": n, "commands": cmds, "files": files, "argmaps_opt": o, "no_base": nb, "args": None,
                                     "argdir": "default", "cmdsrc": "default", "vocab": plain, "chain": True, "select": select})
+    # (2c) invoked with -f from a different directory: cwd, argv and resolution must not change
+    for cmdsrc in ("default", "custompath", "defpath", "defempty"):
+        for argdir in ("default", "custom"):
+            files = [{"base": "args", "m1": "args", "m2": None}, {"base": "args", "m1": "nocmd", "m2": "args"}]
+            out.append({"targets": 2, "commands": ["build", "test"], "files": files, "argmaps_opt": ["m1", "m2"], "no_base": False,
+                        "args": None, "argdir": argdir, "cmdsrc": cmdsrc, "vocab": plain, "foreign": True})
     # (3) --args with one command and one explicit target
     arg_sets = [[v] for v in VOCAB if not v.startswith("-")] + [["x", "y z"], ["", ""], ["a\nb", "*"]]
     for a in arg_sets:
